@@ -283,3 +283,107 @@ def rule_bitflush_mode(ctx):
                              "bits that were read would be written back at the current position" % f.name)
     ctx.floor("BITFLUSH", 3, n, "(HIbitflush call sites)")
     return n
+
+
+def _inout_params(prog):
+    """function -> indices of pointer parameters that the function both reads through and stores through"""
+    c = getattr(prog, "_inout_params", None)
+    if c is not None:
+        return c
+    c = {}
+    for f in prog.lib_funcs():
+        pn = [q[0] for q in f.params]
+        tot = {}
+        lhs = {}
+        for _b, _i, _s, x in f.nodes(True):
+            if x[0] == "deref" and kind(strip(x[1])) == "var" and strip(x[1])[1] in pn:
+                tot[strip(x[1])[1]] = tot.get(strip(x[1])[1], 0) + 1
+            if x[0] == "asg" and kind(strip(x[2])) == "deref" and kind(strip(strip(x[2])[1])) == "var":
+                v = strip(strip(x[2])[1])[1]
+                if v in pn:
+                    lhs.setdefault(v, [0, 0])
+                    lhs[v][0] += 1
+                    if x[1] == "=":
+                        lhs[v][1] += 1
+        for v, (nst, nplain) in lhs.items():
+            if tot.get(v, 0) > nplain:
+                c.setdefault(f.name, []).append(pn.index(v))
+    prog._inout_params = c
+    return c
+
+
+def _read_after(f, var, line, col):
+    """is `var` read on some CFG path after the call at (line, col) before being assigned?"""
+    site = None
+    for bid, i, st in f.stmts():
+        for c in calls_in(st["e"]):
+            if c[5] == line and c[6] == col:
+                site = (bid, i)
+    if site is None:
+        return True
+
+    def ud(e):
+        cnt = sum(1 for x in walk(e, True) if x[0] == "var" and x[1] == var)
+        lhs = sum(1 for x in walk(e, True) if x[0] == "asg" and x[1] == "=" and kind(strip(x[2])) == "var" and strip(x[2])[1] == var)
+        return cnt > lhs, lhs > 0
+    seen = set()
+    work = [(site[0], site[1] + 1)]
+    # the rest of the call's own statement may read it too (e.g. `if (f(&v) == FAIL || v > 3)`): conservative yes
+    while work:
+        bid, idx = work.pop()
+        if (bid, idx) in seen:
+            continue
+        seen.add((bid, idx))
+        b = f.blocks[bid]
+        stop = False
+        for j in range(idx, len(b["s"])):
+            u, d = ud(b["s"][j]["e"])
+            if u:
+                return True
+            if d:
+                stop = True
+                break
+        if not stop:
+            for sb in b["succ"]:
+                if sb >= 0:
+                    work.append((sb, 0))
+    return False
+
+
+INOUT_EXCEPT = {}
+
+
+def rule_inout_used(ctx, files=None, callees=None, floor=5):
+    """INOUT (C06): armed for the number-type normalisation helper(s) named by the caller only -- library-wide the pattern
+    also matches search cursors and stream closers, where not reading the rewritten value is normal.  When a helper both reads and rewrites `*p` (it normalises a value in place: number-type
+    flavour, header position, buffer size ...), a caller that passes `&local` and never reads `local` again has thrown the
+    normalised value away -- typically it keeps using a stale copy."""
+    prog = ctx.prog
+    io = _inout_params(prog)
+    n = 0
+    for f in prog.lib_funcs():
+        if files and not f.rel.endswith(tuple(files)):
+            continue
+        k = 0
+        for _b, _i, st, c in f.calls():
+            idxs = io.get(c[1] or "")
+            if not idxs or (callees is not None and c[1] not in callees):
+                continue
+            for ai in idxs:
+                if ai >= len(c[3]):
+                    continue
+                a = strip(c[3][ai])
+                if not (kind(a) == "addr" and kind(strip(a[1])) == "var" and strip(a[1])[2] == "l"):
+                    continue
+                v = strip(a[1])[1]
+                n += 1
+                k += 1
+                key = "INOUT:%s:%s:%s" % (f.name, c[1], v)
+                if _read_after(f, v, c[5], c[6]):
+                    ctx.holds("INOUT", key, f.where(c[5]), "`%s` is read again after %s() rewrote it" % (v, c[1]), nontrivial=True)
+                elif (f.name, c[1], v) in INOUT_EXCEPT:
+                    ctx.excepted("INOUT", key, f.where(c[5]), INOUT_EXCEPT[(f.name, c[1], v)])
+                else:
+                    ctx.violated("INOUT", key, f.where(c[5]), "%s() reads and rewrites `%s` in place, but `%s` is never read after the call: the rewritten value is lost" % (c[1], v, v))
+    ctx.floor("INOUT", floor, n, "(call sites passing &local to an in-out parameter)")
+    return n
